@@ -278,13 +278,23 @@ func c52Space(env *mc.Env) (cases []*c52Case, desc string) {
 	// depth 2: representative operators over representative depth-1 operands
 	n2 := 0
 	maxInner := mc.Pick(env, 2, 0)
-	nested(rep1, maxInner, func(n *node) { add(n); n2++ })
+	nested(rep1, maxInner, func(n *node) {
+		if n.T != tQ { // S? values are receivers only, never roots
+			add(n)
+			n2++
+		}
+	})
 	n3 := 0
 	if env.Thorough() {
 		// depth 3: a depth-2 "spine" (one operator child) under one more operator, one operator child per node
 		spine := map[ty][]*node{}
 		nested(rep1, 1, func(n *node) { spine[n.T] = append(spine[n.T], n) })
-		nested(spine, 1, func(n *node) { add(n); n3++ })
+		nested(spine, 1, func(n *node) {
+			if n.T != tQ {
+				add(n)
+				n3++
+			}
+		})
 	}
 	// statement forms: slots from leaves + a few depth-1 trees
 	slotOps := map[string]bool{"I/": true, "??I": true, "force": true}
